@@ -114,7 +114,7 @@ Definition covered (o : aop) : bool :=
   match o with
   | APush e | AInsert _ e | AReplace _ e => forallb new_only e
   | ARemoveEntry _ => true
-  | ASetArchqual _ _ _ | ASetVersion _ _ _ | ADropConstraint _ _ => true
+  | ASetArchqual _ _ _ | ASetVersion _ _ _ | ADropConstraint _ _ | ARemoveRelation _ _ => true
   | _ => false
   end.
 
@@ -166,6 +166,19 @@ Proof.
     + cbn [compile]. eapply run_ops_cons; [exact R2|reflexivity].
     + do 7 eexists. split; [reflexivity|]. exact T2.
     + cbn [astep]. now apply forallb_l_remove.
+  - (* remove_relation *)
+    cbn [aop_in_range] in Hr. cbn [compile astep].
+    destruct (rel_in_range_split f i j Hr) as (fa & ra & r0 & rb & fb & -> & <- & <-).
+    destruct (plain_field_split _ _ _ Hp) as (Pa & Pe & Pb).
+    destruct (plain_entry_split _ _ _ Pe) as (Pra & Pr0 & Prb).
+    destruct (remove_relation_runs fa ra r0 rb fb ts tid ri b c d HT) as (ts2 & a2 & b2 & c2 & d2 & x & R2 & T2).
+    eexists. split; [|split].
+    + eapply run_ops_cons; [apply (get_entry_runs fa (ra ++ r0 :: rb) fb ts tid ri a b c d HT)|].
+      eapply run_ops_cons; [exact R2|reflexivity].
+    + do 7 eexists. split; [reflexivity|exact T2].
+    + rewrite l_remove_relation_split. destruct (ra ++ rb) as [|y e'] eqn:E.
+      * unfold plain_field in *. rewrite forallb_app. now rewrite Pa, Pb.
+      * apply plain_field_join; auto. rewrite <- E. unfold plain_entry in *. rewrite forallb_app. now rewrite Pra, Prb.
   - (* set_version *)
     cbn [aop_in_range] in Hr. cbn [compile astep].
     apply (rel_op_step (fun r => relation_set_version fixed r v) (OSetVersion 0 v) (rr_set_version v) f i j _
